@@ -112,4 +112,25 @@ fn main() {
         c!(format!("{pfx}_CAP_HEIGHT"), cfg.fri_config.cap_height);
         c!(format!("{pfx}_NUM_QUERY_ROUNDS"), cfg.fri_config.num_query_rounds);
     }
+    // pool (C19-C22): the private-batch PI layout functions the pool parses with, at two points each
+    c!("POOL_PI_LEN_1", pr::aggregated_output::pi_len(1));
+    c!("POOL_PI_LEN_2", pr::aggregated_output::pi_len(2));
+    c!("POOL_NULLIFIERS_START_1", pr::aggregated_output::nullifiers_start(1));
+    c!("POOL_NULLIFIERS_START_2", pr::aggregated_output::nullifiers_start(2));
+    c!("POOL_EXIT_SLOTS_COUNT_1", pr::aggregated_output::exit_slots_count(1));
+    c!("POOL_EXIT_SLOTS_COUNT_2", pr::aggregated_output::exit_slots_count(2));
+    c!("POOL_NULLIFIERS_COUNT_1", pr::aggregated_output::nullifiers_count(1));
+    c!("POOL_NULLIFIERS_COUNT_2", pr::aggregated_output::nullifiers_count(2));
+    c!("POOL_EXIT_SLOTS_START", pr::aggregated_output::exit_slots_start());
+    // privacy group (C33): capacities of the secret-bearing buffers
+    c!("NULLIFIER_SALT_NUM_TARGETS", wormhole_circuit::nullifier::SALT_NUM_TARGETS);
+    c!("NULLIFIER_SECRET_NUM_TARGETS", wormhole_circuit::nullifier::SECRET_NUM_TARGETS);
+    c!("NULLIFIER_TRANSFER_COUNT_NUM_TARGETS", wormhole_circuit::nullifier::TRANSFER_COUNT_NUM_TARGETS);
+    c!("NULLIFIER_SIZE_FELTS", wormhole_circuit::nullifier::NULLIFIER_SIZE_FELTS);
+    c!("NULLIFIER_SECRET_BYTES_LEN", wormhole_circuit::nullifier::SECRET_BYTES_LEN);
+    c!("NULLIFIER_SALT_BYTES_LEN", wormhole_circuit::nullifier::SALT_BYTES_LEN);
+    c!("UNSPENDABLE_PREIMAGE_NUM_TARGETS", wormhole_circuit::unspendable_account::PREIMAGE_NUM_TARGETS);
+    c!("UNSPENDABLE_ACCOUNT_ID_NUM_TARGETS", wormhole_circuit::unspendable_account::ACCOUNT_ID_NUM_TARGETS);
+    c!("UNSPENDABLE_SECRET_NUM_TARGETS", wormhole_circuit::unspendable_account::SECRET_NUM_TARGETS);
+    c!("POSEIDON2_SPONGE_RATE", <plonky2::hash::poseidon2::Poseidon2Permutation<plonky2::field::goldilocks_field::GoldilocksField> as plonky2::hash::hashing::PlonkyPermutation<plonky2::field::goldilocks_field::GoldilocksField>>::RATE);
 }
